@@ -17,7 +17,7 @@ import (
 
 // RuleJ1: distinct map keys never render to the same JSON key.
 func RuleJ1(c *Ctx) {
-	sc := c.Run.Begin("J1", "the text form of every structured key of a serialised collection is injective: its String() is one Sprintf whose operands are at most one free-form string plus members of literal sets that do not contain the separator; implementations of one key interface start with distinct literal prefixes", 2)
+	sc := c.Run.Begin("J1", "the text form of every structured key of a serialised collection is injective: its String() is one Sprintf whose operands are at most one free-form string plus members of literal sets that do not contain the separator; implementations of one key interface start with distinct literal prefixes", 1)
 	defer sc.End()
 	pk := c.P.Pkg("catalog")
 	if pk == nil {
@@ -198,7 +198,7 @@ func (c *Ctx) literalSetOf(pk *pkgT, e ast.Expr) ([]string, bool) {
 
 // RuleID1: an interaction is stored under the id it was built from.
 func RuleID1(c *Ctx) {
-	sc := c.Run.Begin("ID1", "every interaction is stored under the very id its constructor received, and the constructor copies id, protocol, method and path from that id", 2)
+	sc := c.Run.Begin("ID1", "every interaction is stored under the very id its constructor received, and the constructor copies id, protocol, method and path from that id", 1)
 	defer sc.End()
 	pk := c.P.Pkg("catalog")
 	fld := c.Field("catalog", "Catalog", "Interactions")
@@ -296,7 +296,7 @@ func m1InternalField(f *types.Var) string {
 
 // RuleM1: hand-written MarshalJSON methods serialise every field.
 func RuleM1(c *Ctx) {
-	sc := c.Run.Begin("M1", "every field of a catalog type with a hand-written MarshalJSON is read somewhere in that method's call tree (same-type helpers included), and every exported field of a tag-serialised struct carries a json tag; a field that is declared but never written out is silently lost", 2)
+	sc := c.Run.Begin("M1", "every field of a catalog type with a hand-written MarshalJSON is read somewhere in that method's call tree (same-type helpers included), and every exported field of a tag-serialised struct carries a json tag; a field that is declared but never written out is silently lost", 1)
 	defer sc.End()
 	pk := c.P.Pkg("catalog")
 	if pk == nil {
@@ -402,7 +402,7 @@ func RuleM1(c *Ctx) {
 
 // RuleTG: tags and interactions reference each other, tags resolve, at least one tag.
 func RuleTG(c *Ctx) {
-	sc := c.Run.Begin("TG", "every function that creates an interaction and stores it obtains its tag names from the tag resolver with the same id, appends every returned name, and has no error exit between resolving and storing (TG1); the resolver registers the interaction in each tag it returns (mutual reference); tag names come only from tags fetched from the Tags collection or created and stored by the path-tag helper (TG2); the tag list is never empty (TG3)", 2)
+	sc := c.Run.Begin("TG", "every function that creates an interaction and stores it obtains its tag names from the tag resolver with the same id, appends every returned name, and has no error exit between resolving and storing (TG1); the resolver registers the interaction in each tag it returns (mutual reference); tag names come only from tags fetched from the Tags collection or created and stored by the path-tag helper (TG2); the tag list is never empty (TG3)", 1)
 	defer sc.End()
 	pk := c.P.Pkg("catalog")
 	inter := c.Field("catalog", "Catalog", "Interactions")
@@ -939,7 +939,7 @@ func RuleTP1(c *Ctx) {
 
 // RuleRV1: the validation stage looks at every response, not at a chosen one.
 func RuleRV1(c *Ctx) {
-	sc := c.Run.Begin("RV1", "every loop over an interaction's Responses in core visits all of them (no success return or break inside), and in the validation stage every use of Responses is such a loop (a check that indexes one response lets the others through unchecked)", 2)
+	sc := c.Run.Begin("RV1", "every loop over an interaction's Responses in core visits all of them (no success return or break inside), and in the validation stage every use of Responses is such a loop (a check that indexes one response lets the others through unchecked)", 1)
 	defer sc.End()
 	pk := c.P.Pkg("core")
 	resp := c.Field("catalog", "HTTPInteraction", "Responses")
@@ -1062,7 +1062,7 @@ func RuleTI1(c *Ctx) {
 // receiver: the `id` field of an interaction is built from String(), the object key and the
 // tag's interaction list from MarshalText(), and the two must be one text.
 func RuleID2(c *Ctx) {
-	sc := c.Run.Begin("ID2", "MarshalText of every InteractionID implementation returns []byte(receiver.String()) untransformed, so the key under which an interaction is serialised equals its id field", 2)
+	sc := c.Run.Begin("ID2", "MarshalText of every InteractionID implementation returns []byte(receiver.String()) untransformed, so the key under which an interaction is serialised equals its id field", 1)
 	defer sc.End()
 	pk := c.P.Pkg("catalog")
 	iface := c.Named("catalog", "InteractionID")
